@@ -408,6 +408,10 @@ def _num(x):
     return x
 
 
+def sym_real(a):
+    return _result(_elementwise(lambda e: e.re if isinstance(e, core.SCx) else (e.real if isinstance(e, complex) else e), [a]))
+
+
 def s_isnan(x):
     if isinstance(x, SReal):
         return x.isnan()
@@ -635,7 +639,7 @@ UFUNC_TABLE = {
     np.rint: s_rint,
     np.isnan: s_isnan,
     np.isfinite: lambda a: not_(s_isnan(a)) if isinstance(a, Sym) else builtins.bool(np.isfinite(a)),
-    np.conjugate: lambda a: UVal(core.ufun('CONJ', core.USort, core.USort)(a.t)) if isinstance(a, UVal) else a,
+    np.conjugate: lambda a: UVal(core.ufun('CONJ', core.USort, core.USort)(a.t)) if isinstance(a, UVal) else (a.conj() if isinstance(a, core.SCx) else a),
     np.cos: _uf_real("cos"),
     np.sin: _uf_real("sin"),
     np.exp: _uf_real("exp"),
@@ -1388,6 +1392,7 @@ def _install():
               np.setxor1d, np.intersect1d, np.union1d, np.array_equiv, np.allclose, np.nanmean, np.unravel_index):
         _reg(f, _passthrough(f))
     _reg(np.where, sym_where)
+    _reg(np.real, sym_real)
     _reg(np.nonzero, lambda a: sym_where(a))
     _reg(np.flatnonzero, lambda a: sym_where(np.ravel(a))[0])
     _reg(np.argmax, lambda a, axis=None, out=None, **kw: sym_argext(a, axis, "max", False))
